@@ -81,8 +81,14 @@ def rule_total(run):
                 role['SL' if maps[v.value.id] == 'layer_mapping' else 'SC'] = nm
         key = 'mulgrid.block_mapping :: atmosphere blocks map to the source atmosphere'
 
-        def atm_name_of(e):
-            """root variable r of `r.layerlist[0].name`"""
+        single = {}
+        for nm, v, st in roles.assignments(bm.node):
+            single.setdefault(nm, []).append(v)
+        single = dict((nm, vs[0]) for nm, vs in single.items() if len(vs) == 1)
+
+        def atm_name_of(e, depth=0):
+            """root variable r of `r.layerlist[0].name` (also through a local bound once to it)"""
+            if isinstance(e, ast.Name) and e.id in single and depth < 3: return atm_name_of(single[e.id], depth + 1)
             if isinstance(e, ast.Attribute) and e.attr == 'name' and isinstance(e.value, ast.Subscript) and \
                isinstance(e.value.value, ast.Attribute) and e.value.value.attr == 'layerlist' and isinstance(e.value.value.value, ast.Name) \
                and isinstance(e.value.slice, ast.Constant) and e.value.slice.value == 0:
@@ -113,9 +119,28 @@ def rule_total(run):
             corr = [s_ for s_ in atm[0].orelse if isinstance(s_, ast.If)]
             k2 = 'mulgrid.block_mapping :: above-surface source block moved to the column\'s surface layer'
             if len(corr) == 1:
-                good = any(isinstance(x, ast.Assign) and norm(x.targets[0]) == SL and
-                           compare(x.value, 'self.column_surface_layer(self.column[%s]).name' % SC) == 'equal' for x in corr[0].body)
-                run.check(good, k2, 'the corrected layer is not column_surface_layer(column).name', where=bm.where(corr[0]))
+                asg = [x for x in corr[0].body if isinstance(x, ast.Assign) and norm(x.targets[0]) == SL]
+                # locals of the branch (a column looked up once and reused) stand for their definitions
+                pre = [x for x in atm[0].orelse if not isinstance(x, ast.If)]
+                rs = [compare(roles.inline_locals(x.value, pre), 'self.column_surface_layer(self.column[%s]).name' % SC) for x in asg]
+                if 'equal' in rs: run.ok(k2, where=bm.where(corr[0]))
+                elif rs and all(r == 'different' for r in rs):
+                    run.violated(k2, 'the corrected layer is `%s`, not column_surface_layer(column).name' % norm(asg[0].value), where=bm.where(corr[0]))
+                else:
+                    # another existing method of the class in place of column_surface_layer() (and not one that delegates to it)
+                    mcls = prog.cls('mulgrids', 'mulgrid')
+                    other = []
+                    for x in asg:
+                        e_ = roles.inline_locals(x.value, pre)
+                        for c_ in ast.walk(e_):
+                            if isinstance(c_, ast.Call) and isinstance(c_.func, ast.Attribute) and norm(c_.func.value) == 'self' and c_.func.attr in mcls.methods \
+                               and c_.func.attr != 'column_surface_layer' and not c_.func.attr.startswith('_'):
+                                callee = mcls.methods[c_.func.attr]
+                                if not any(isinstance(y, ast.Call) and call_name(y) == 'column_surface_layer' for y in ast.walk(callee.node)): other.append(c_.func.attr)
+                    if other and len(asg) == 1:
+                        run.violated(k2, 'the corrected layer is `%s`: it is found with %s(), not with column_surface_layer(column) - the first layer whose '
+                                     'bottom lies below the column surface' % (norm(asg[0].value), other[0]), where=bm.where(corr[0]))
+                    else: run.unknown(k2, 'corrected layer %s' % [norm(x.value) for x in asg], where=bm.where(corr[0]))
             else: run.unknown(k2, 'correction not found', where=bm.where(atm[0]))
         else:
             run.unknown(key, 'atmosphere branch not recognised (roles %s)' % sorted(role), where=bm.where(lp[0]))
@@ -158,9 +183,19 @@ def rule_total(run):
         # index offset: distances over self.layerlist[1:]  <->  self.layerlist[1 + argmin]
         k2 = 'mulgrid.layer_mapping :: nearest index offset matches the searched slice'
         # self.layerlist[<off> + argmin(D)] with D built over self.layerlist[<lo>:]  (roles, not names)
+        once = {}
+        for nm, v, st in roles.assignments(lm.node): once.setdefault(nm, []).append(v)
+
+        def shift_of(e, depth=0):
+            """k such that e is self.layerlist[k:] (0 for the list itself), through a local bound once to it; else None"""
+            if norm(e) == 'self.layerlist': return 0
+            if isinstance(e, ast.Subscript) and norm(e.value) == 'self.layerlist' and isinstance(e.slice, ast.Slice) and e.slice.upper is None and e.slice.step is None:
+                return 0 if e.slice.lower is None else (e.slice.lower.value if isinstance(e.slice.lower, ast.Constant) and isinstance(e.slice.lower.value, int) else None)
+            if isinstance(e, ast.Name) and len(once.get(e.id, [])) == 1 and depth < 3: return shift_of(once[e.id][0], depth + 1)
+            return None
         picks = []
         for x in ast.walk(lp[0]):
-            if isinstance(x, ast.Subscript) and norm(x.value) == 'self.layerlist' and not isinstance(x.slice, ast.Slice):
+            if isinstance(x, ast.Subscript) and shift_of(x.value) is not None and not isinstance(x.slice, ast.Slice):
                 am = [c for c in ast.walk(x.slice) if isinstance(c, ast.Call) and call_name(c) == 'argmin']
                 if len(am) == 1 and am[0].args: picks.append((x, am[0]))
         if len(picks) != 1: run.unknown(k2, 'selection self.layerlist[... argmin(...)] not found exactly once', where=lm.where(lp[0]))
@@ -172,10 +207,7 @@ def rule_total(run):
                 D = dd[0] if len(dd) == 1 else D
             comps = [c for c in ast.walk(D) if isinstance(c, ast.ListComp)] if isinstance(D, ast.AST) else []
             it = comps[0].generators[0].iter if comps else None
-            lo = None
-            if isinstance(it, ast.Subscript) and norm(it.value) == 'self.layerlist' and isinstance(it.slice, ast.Slice) and it.slice.upper is None and it.slice.step is None:
-                lo = 0 if it.slice.lower is None else (it.slice.lower.value if isinstance(it.slice.lower, ast.Constant) else None)
-            elif it is not None and norm(it) == 'self.layerlist': lo = 0
+            lo = shift_of(it) if it is not None else None
             # offset: the slice index minus the argmin call
             off = None
             sl_ = x.slice
@@ -183,6 +215,7 @@ def rule_total(run):
             elif isinstance(sl_, ast.BinOp) and isinstance(sl_.op, ast.Add):
                 for a_, b_ in ((sl_.left, sl_.right), (sl_.right, sl_.left)):
                     if b_ is am and isinstance(a_, ast.Constant) and isinstance(a_.value, int): off = a_.value
+            if off is not None: off += shift_of(x.value)          # index into a slice that itself starts at layer k
             if lo is None or off is None: run.unknown(k2, 'slice `%s` / index `%s` not recognised' % (norm(it) if it is not None else None, norm(sl_)), where=lm.where(x))
             elif lo == off: run.ok(k2, {'searched': norm(it), 'index': norm(sl_)}, where=lm.where(x))
             else:
@@ -248,27 +281,35 @@ def rule_case(run):
             geo.attrs['atmosphere_type'] = g; src.attrs['atmosphere_type'] = s
             leaves = leaf_stmts(fi.node.body, {'geo': geo, 'sourcegeo': src})
             key = 't2incon.transfer_from :: target atmosphere type %s, source %s' % (g if g < 2 else 'other', s if s < 2 else 'other')
+            # the single-block store, by role: a store into self[...] made directly in this case (not inside a loop)
             direct = [n for n in leaves if isinstance(n, ast.Assign) and isinstance(n.targets[0], ast.Subscript) and
-                      norm(n.targets[0].value) == 'self' and norm(n.targets[0].slice) == 'atmblk']
+                      norm(n.targets[0].value) == 'self']
             loops = [n for n in leaves if isinstance(n, ast.For) and norm(n.iter) == 'geo.columnlist' and
                      any(isinstance(x, ast.Assign) and isinstance(x.targets[0], ast.Subscript) and norm(x.targets[0].value) == 'self'
                          for x in n.body)]
             if g == 0:
-                atm = [n for n in leaves if isinstance(n, ast.Assign) and norm(n.targets[0]) == 'atmblk']
-                good_name = atm and compare(atm[0].value, 'geo.block_name(geo.layerlist[0].name, geo.atmosphere_column_name)') == 'equal'
-                if len(direct) == 1 and good_name: run.ok(key, norm(direct[0].value), where=fi.where(direct[0]))
-                elif len(direct) != 1: run.violated(key, 'the single target atmosphere block is assigned %d times in this case' % len(direct), where=fi.where())
-                else: run.violated(key, 'the atmosphere block name is `%s`' % (norm(atm[0].value) if atm else None), where=fi.where())
+                if len(direct) != 1:
+                    run.violated(key, 'the single target atmosphere block is assigned %d times in this case' % len(direct), where=fi.where()); continue
+                kname = roles.inline_locals(direct[0].targets[0].slice, leaves)
+                r = compare(kname, 'geo.block_name(geo.layerlist[0].name, geo.atmosphere_column_name)')
+                if r == 'equal': run.ok(key, norm(direct[0].value), where=fi.where(direct[0]))
+                elif r == 'different': run.violated(key, 'the atmosphere block name is `%s`' % norm(kname), where=fi.where(direct[0]))
+                else: run.unknown(key, 'atmosphere block name `%s`' % norm(kname), where=fi.where(direct[0]))
             elif g == 1:
                 if len(loops) != 1:
                     run.violated(key, 'no loop over geo.columnlist assigning each column\'s atmosphere block in this case', where=fi.where()); continue
                 lp = loops[0]
-                blk = [x for x in lp.body if isinstance(x, ast.Assign) and norm(x.targets[0]) == 'blk']
                 tgt = [x for x in lp.body if isinstance(x, ast.Assign) and isinstance(x.targets[0], ast.Subscript) and norm(x.targets[0].value) == 'self']
-                good = blk and compare(blk[0].value, 'geo.block_name(geo.layerlist[0].name, col.name)') == 'equal' and \
-                    tgt and norm(tgt[0].targets[0].slice) == 'blk'
-                if good: run.ok(key, norm(tgt[0].value), where=fi.where(lp))
-                else: run.violated(key, 'the per-column atmosphere block is not geo.block_name(geo.layerlist[0].name, col.name)', where=fi.where(lp))
+                cv0 = lp.target.id if isinstance(lp.target, ast.Name) else None
+                if len(tgt) != 1 or cv0 is None:
+                    run.unknown(key, 'per-column store not identified', where=fi.where(lp))
+                else:
+                    kname = roles.inline_locals(tgt[0].targets[0].slice, lp.body)
+                    r = compare(kname, 'geo.block_name(geo.layerlist[0].name, %s.name)' % cv0)
+                    if r == 'equal': run.ok(key, norm(tgt[0].value), where=fi.where(lp))
+                    elif r == 'different':
+                        run.violated(key, 'the per-column atmosphere block is `%s`, not geo.block_name(geo.layerlist[0].name, %s.name)' % (norm(kname), cv0), where=fi.where(lp))
+                    else: run.unknown(key, 'per-column atmosphere block `%s`' % norm(kname), where=fi.where(lp))
                 if s == 1:
                     # source block of the mapped column
                     # what is copied into the column's atmosphere block, with the loop's locals substituted by their definitions
@@ -357,6 +398,23 @@ def rule_noalias(run):
                       for t in (n.targets if isinstance(n, ast.Assign) else [n.target]))]
         run.check(not stores, 't2data.transfer_generators_from :: source generators not mutated',
                   'attributes of the source generator %s are assigned' % sv, where=tg.where(stores[0]) if stores else tg.where())
+        # which source column a top / bottom generator belongs to: the column part of its *block* (its name carries the category in the
+        # layer part and need not carry the block's column); found as what is compared with colmapping[<target column>.name]
+        run.rule_doc['GENCOL'] = 'a top / bottom generator is transferred to the target columns mapped to the column of its block'
+        kc = 't2data.transfer_generators_from :: source column of a top/bottom generator = column of its block'
+        cmp_ = [c for c in ast.walk(lps[0]) if isinstance(c, ast.Compare) and len(c.ops) == 1 and isinstance(c.ops[0], ast.Eq) and
+                any(isinstance(x, ast.Subscript) and norm(x.value) == 'colmapping' for x in [c.left, c.comparators[0]])]
+        if len(cmp_) != 1: run.unknown(kc, 'comparison with colmapping[...] not found exactly once', where=tg.where(lps[0]), rule='GENCOL')
+        else:
+            other = cmp_[0].comparators[0] if isinstance(cmp_[0].left, ast.Subscript) and norm(cmp_[0].left.value) == 'colmapping' else cmp_[0].left
+            src = roles.inline_locals(other, lps[0].body)
+            r = compare(src, 'sourcegeo.column_name(%s.block)' % sv)
+            if r == 'equal': run.ok(kc, norm(src), where=tg.where(cmp_[0]), rule='GENCOL')
+            elif isinstance(src, ast.Call) and call_name(src) == 'column_name' and src.args and isinstance(src.args[0], ast.Attribute) and norm(src.args[0].value) == sv:
+                run.violated(kc, 'the source column is taken from `%s`, not from the generator\'s block: a generator whose name does not carry the column of its '
+                             'block is moved to another column (or dropped, or raises KeyError)' % norm(src), where=tg.where(cmp_[0]), robust=True, rule='GENCOL')
+            elif r == 'different': run.violated(kc, 'source column is `%s`' % norm(src), where=tg.where(cmp_[0]), rule='GENCOL')
+            else: run.unknown(kc, 'source column `%s`' % norm(src), where=tg.where(cmp_[0]), rule='GENCOL')
         adds = [c for c in ast.walk(lps[0]) if isinstance(c, ast.Call) and call_name(c) == 'add_generator']
         for j, c in enumerate(adds):
             a = c.args[0]
